@@ -57,6 +57,9 @@ class _NgdInterpTerms(torch.autograd.Function):
             prec.matmul,
             torch.cat([expanded_natural_vec.unsqueeze(-1), expanded_interp_term], dim=-1),
             n_tridiag=0,
+            # linear_cg normalises the right-hand sides; its default division guard (1e-10) stalls the iteration at a
+            # relative residual of ~1e-5, far above the tolerance requested below
+            eps=torch.finfo(prec.dtype).tiny,
             max_iter=settings.max_cg_iterations.value(),
             tolerance=min(settings.eval_cg_tolerance.value(), settings.cg_tolerance.value()),
             max_tridiag_iter=settings.max_lanczos_quadrature_iterations.value(),
